@@ -35,6 +35,7 @@ FIXED = [
  ("C10", "20494f4", "a whole-array update that moves items of dynamic size left the updating handle's cached item offsets stale (reads returned other items' bytes)", "corpus/C10/root_update_moves_items.json"),
  ("C09", "20494f4", "a copy of an array of dynamic items shared the source's Python-side item-offset cache (a live view of the source buffer's table when the source is a view)", "corpus/C09/copy_shares_offset_cache.json"),
  ("C10", "be24ecd", "Struct._update by byte copy left the handle's cached offsets of dynamic fields stale when the assigned struct splits the same size differently", "corpus/C10/struct_other_split_by_copy.json"),
+ ("C09", "5f3b487", "Array._update left the handle's cached _size stale after a shrinking whole-array update: a later copy of that object was refused", "corpus/C09/second_copy_after_shrinking_update.json"),
 ]
 _STALE = ("a whole-object update that moves the parts of a root array of dynamically sized items (or of a root struct with two or more dynamic "
           "fields), made through a view (_from_buffer) of that object, leaves the constructor handle's cached offsets stale: reads through the old "
